@@ -36,3 +36,15 @@ def register(add):
             decls='uint8_t *out; size_t *out_len; const uint8_t *in, *key, *iv; size_t in_len, key_len;', call='%s(out, out_len, in, in_len, key, key_len, iv)' % f,
             replace=['makeKey2/makeKey2_v', 'cipherInit/cipherInit_v', cal], flags=['--object-bits', '9'],
             bound_note='loop-free (callees abstract); lengths: input <= 100 bytes, capacity <= 200 bytes, key <= 64 bytes', note=BN)
+
+    add('md_map_sh256', ['C14', 'C08'], 'md_map_sh256', sources=['src/md/relic_md_sha256.c'], headers=['c14x_map.h', 'c14x_xmd_state.h'], conf='base', route='proof', unwind=12, timeout=300,
+        decls='uint8_t *hash; const uint8_t *msg; size_t len;', call='md_map_sh256(hash, msg, len)', replace=XR,
+        bound_note='loop-free; message lengths <= 100000 bytes', note='streaming hash abstract (SHA256Reset/Input/Result replaced, contracts of c14x_xmd.h)')
+
+    SS = ['src/md/sha224-256.c']
+    add('sha256_finalize', ['C14'], 'SHA224_256Finalize', sources=SS, headers=['c14x_fin.h', 'c14x_fin_state.h'], defines=['VC_SHA_STATICS'], conf='base', route='proof', unwind=66,
+        decls='SHA256Context *c; uint8_t pad;', call='SHA224_256Finalize(c, pad)', replace=['SHA224_256PadMessage'], timeout=300,
+        bound_note='wipe loop bounded by the 64-byte block; unwound completely', note='SHA224_256PadMessage replaced by its proved contract (unit sha256_pad): the compression function is abstract')
+    add('sha256_result', ['C14', 'C08'], 'SHA256Result', sources=SS, headers=['c14x_fin.h', 'c14x_fin_state.h'], conf='base', route='proof', unwind=34,
+        decls='SHA256Context *c; uint8_t *d;', call='SHA256Result(c, d)', replace=['SHA224_256Finalize/SHA224_256Finalize_v'], timeout=300,
+        bound_note='digest loop bounded by the 32-byte digest; unwound completely', note='SHA224_256Finalize abstract (view: records the call and the pad byte, marks the context computed, arbitrary chaining value); SHA224_256ResultN inlined')
